@@ -13,7 +13,7 @@ func init() {
 	Register(&Property{
 		ID: "C11", Level: "exploration",
 		Rule: "E1: alternatives n<=4 with values {0,1,2}^2 (full product), n=5 with {0,1}^2 (thorough: n=5 {0,1,2}, n=6 {0,1}), the 1e-6 tie neighbourhood {1,1+5e-7,1+2e-6} for n=3, " +
-			"3 criteria {0,1}^3 for n<=3; x gain/cost x weights {(1,1),(2,1)} / {(1,2,3),(1,1,2)} x 4 draw policies (+default) x currentChoice {none, first considered, last considered, known-not-considered} " +
+			"3 criteria {0,1}^3 for n<=3; x gain/cost/type-omitted x weights {(1,1),(2,1)} / {(1,2,3),(1,1,2),(0.1,0.2,0.3)} x 4 draw policies (+default) x currentChoice {none, first considered, last considered, known-not-considered} " +
 			"x order {fixed; random with scripted generator answers: 5 constant scripts + every single deviation (thorough: two) from the all-zero script over menu {0,.25,.5,.75,1-ulp}}. " +
 			"Oracle: stated per-entry invariants + equality with a reference tournament (existential over search orders / coin sequences where the statement leaves them open). " +
 			"distinct_nontrivial = distinct responses with >=2 drop-out groups.",
@@ -71,17 +71,17 @@ func majEnumerate(s *Shard, prop string, fn func(c *Case)) {
 		grids = append(grids, grid{5, []float64{0, 1, 2}, 2}, grid{6, []float64{0, 1}, 2}, grid{4, []float64{0, 1}, 3})
 	}
 	weights2 := [][]float64{{1, 1}, {2, 1}}
-	weights3 := [][]float64{{1, 2, 3}, {1, 1, 2}}
+	weights3 := [][]float64{{1, 2, 3}, {1, 1, 2}, {0.1, 0.2, 0.3}} // 0.1+0.2 != 0.3 in binary floating point: equal within 1e-6 only
 	for _, g := range grids {
 		dims := make([]int, g.n*g.m)
 		for i := range dims {
 			dims[i] = len(g.levels)
 		}
 		ws := weights2
-		typeSets := [][]string{{"gain", "gain"}, {"gain", "cost"}}
+		typeSets := [][]string{{"", "gain"}, {"gain", "cost"}} // "" = type left out (documented default: gain)
 		if g.m == 3 {
 			ws = weights3
-			typeSets = [][]string{{"gain", "gain", "gain"}, {"cost", "gain", "cost"}}
+			typeSets = [][]string{{"gain", "", "gain"}, {"cost", "gain", "cost"}}
 		}
 		currents := []string{"", ids6[0], ids6[g.n-1], "zz"}
 		if g.n == 1 {
